@@ -41,12 +41,21 @@ def run(F, R, tier):
             n_loops += 1
             # names bound to the Ok(n) result of the read
             nvars = set()
+            eof_arm = False
             for m in H.walk(lp):
                 if m.get("k") == "match" and not H.is_try(m) and any(x is reads[0] for x in H.walk(m["scrut"])):
                     for a in m["arms"]:
                         pt = a["pat"]
                         if pt.get("k") == "ts" and H.last(pt["res"].get("path")) == "Ok" and pt["pats"] and pt["pats"][0].get("k") == "bind":
                             nvars.add(pt["pats"][0]["name"])
+                        # `Ok(0) => break`: the end of the input as a literal pattern
+                        if pt.get("k") == "ts" and H.last(pt["res"].get("path")) == "Ok" and pt["pats"] and pt["pats"][0].get("k") == "plit" \
+                                and H.strip(pt["pats"][0]["lit"]).get("v") == 0 and H.diverges(a["body"]):
+                            eof_arm = True
+                    # `let bytes_read = match reader.read(..) { .. Ok(n) => n, .. }`: the count under another name
+                    for st in H.walk(lp):
+                        if st.get("k") == "let" and st.get("init") is m and st.get("pat", {}).get("k") == "bind":
+                            nvars.add(st["pat"]["name"])
             exits = []
 
             def scan(n, guards):
@@ -90,7 +99,7 @@ def run(F, R, tier):
                 k += 1
             # an exit on n == 0 (end of input) must exist, otherwise the loop spins at EOF
             eof = any(any(re.search(r"\(%s == 0\)" % re.escape(nv), gt) for nv in nvars for gt in guards) for kind, guards in exits)
-            R.ob("read-loop-eof-exit", "%s read loop leaves on a read of 0 bytes" % p, eof, "", F.loc(g))
+            R.ob("read-loop-eof-exit", "%s read loop leaves on a read of 0 bytes" % p, eof or eof_arm, "", F.loc(g))
     R.count("read loops analysed", n_loops)
     R.floor("read loops", n_loops, 1)
     # ---- (b) unbounded reads and prefix copy ----------------------------------------------------------------------------------
@@ -107,8 +116,11 @@ def run(F, R, tier):
         R.ob("quota-accounting", "total_bytes_read += bytes_read once per successful read", adds == ["total_bytes_read += bytes_read"], str(adds), F.loc(rf))
     br = F.fn(BF + "builtin_read")
     if R.anchor("builtin_read", br):
-        defaults = [H.render(x.get("e")) for x in H.walk(H.body_of(br)) if x.get("k") == "if" and "args.len() == 2" in H.render(x["c"]) and "e" in x]
-        R.ob("read-all-default", "read(f) without a count reads up to usize::MAX bytes (both handle kinds)", defaults == ["MAX", "MAX"], str(defaults), F.loc(br))
+        brb = H.body_inl(F, br, keep=("read_from_file",))
+        defaults = [H.render(H.strip(x.get("e"))) for x in H.walk(brb) if x.get("k") == "if" and re.search(r"args\)?\.len\(\) == 2", H.render(x["c"])) and "e" in x]
+        n_reads = len([c for c in H.walk(brb) if c.get("k") == "call" and H.last(c.get("callee") or "") == "read_from_file"])
+        R.ob("read-all-default", "read(f) without a count reads up to usize::MAX bytes (both handle kinds)", [re.sub(r"^v1::Ok\((.*)\)$", r"\1", d) for d in defaults] == ["MAX"] * n_reads and n_reads == 2,
+             "%s for %d reads" % (defaults, n_reads), F.loc(br))
     rs = F.fn(BF + "builtin_read_to_string")
     if R.anchor("builtin_read_to_string", rs):
         c = [x for x in H.walk(H.body_of(rs)) if x.get("k") == "mcall" and x["m"] == "read_to_end"]
@@ -116,7 +128,11 @@ def run(F, R, tier):
     # ---- (c) mode table ------------------------------------------------------------------------------------------------------------
     bo = F.fn(BF + "builtin_open")
     if R.anchor("builtin_open", bo):
-        ms = [m for m in H.walk(H.body_of(bo)) if m.get("k") == "match" and not H.is_try(m) and H.render(m["scrut"]) == "mode"]
+        # the match on the mode string: the one whose arms are string literals (helpers of the file inlined, so that a shared
+        # `writer_handle_or_error(open_result)` reads as part of each arm)
+        bo_body = H.body_inl(F, bo, keep=("new_reader", "new_writer"))
+        ms = [m for m in H.walk(bo_body) if m.get("k") == "match" and not H.is_try(m) and
+              sum(1 for a in m["arms"] if a["pat"].get("k") == "plit" and a["pat"]["lit"].get("lk") == "str") >= 3]
         got = {}
         if ms:
             for a in ms[0]["arms"]:
@@ -173,7 +189,21 @@ def run(F, R, tier):
         for c in H.walk(b):
             if c.get("k") == "call" and c.get("callee") in ("std::io::BufReader::<R>::new", "std::io::BufWriter::<W>::new"):
                 cons.setdefault(H.last(c["callee"].split("::<")[0]) if False else c["callee"].split("::")[2], []).append(p)
-    R.ob("single-buffer-per-handle", "BufReader / BufWriter are constructed only in builtin_open", all(set(v) == {BF + "builtin_open"} for v in cons.values()) and len(cons) == 2,
+    # ... or in helpers that only builtin_open calls (directly or through other such helpers)
+    from .lib import mir as M_
+    cg_ = M_.CallGraph(F)
+    callers_of = {}
+    for c_, es in cg_.edges.items():
+        for e_ in es:
+            callers_of.setdefault(e_, set()).add(c_)
+    addr_taken = {x for v in cg_.addr_taken.values() for x in v}
+
+    def only_from_open(p, depth=0):
+        if p == BF + "builtin_open":
+            return True
+        cs = callers_of.get(p, set())
+        return bool(cs) and depth < 4 and p not in addr_taken and all(only_from_open(q, depth + 1) for q in cs)
+    R.ob("single-buffer-per-handle", "BufReader / BufWriter are constructed only in builtin_open", all(all(only_from_open(p) for p in v) for v in cons.values()) and len(cons) == 2,
          str({k: sorted(set(v)) for k, v in cons.items()}))
     # no buffer bypass: data read or written on a handle goes through its BufReader / BufWriter; reaching the underlying
     # File (`get_mut`, `into_inner`, `into_parts`; `get_ref` only reads metadata and is allowed) lets bytes overtake — or be returned again after — what the
